@@ -26,6 +26,8 @@ const M_CEND: char = '\u{4}'; // + digit k: the call expression of level k ends 
 const M_SIMPLE: char = '\u{5}'; // a complete single-line statement `v = a + b`
 const M_HEADER: char = '\u{6}'; // a block header line (a body must follow)
 const M_DEBUG: char = '\u{7}'; // + 2 digits: debug expression number nn starts on this line
+const M_NAT: char = '\u{e}'; // + digit k: the core-library call that runs the callback holding call site k
+const M_ADP: char = '\u{f}'; // + digit k: the lazy adaptor holding call site k is created on this line
 
 #[derive(Clone, Debug, Default)]
 struct Capture {
@@ -206,6 +208,8 @@ struct Flat {
     fault: Option<usize>,
     calls: Vec<Option<usize>>, // per level
     cends: Vec<Option<usize>>,
+    nats: Vec<Option<usize>>,
+    adps: Vec<Option<usize>>,
     simple: Vec<usize>,
     headers: Vec<usize>,
     debugs: Vec<(usize, usize)>, // (id, line)
@@ -219,6 +223,8 @@ fn flatten(raw: &[String], eol: &str, trailing: bool) -> Flat {
         fault: None,
         calls: vec![None; 10],
         cends: vec![None; 10],
+        nats: vec![None; 10],
+        adps: vec![None; 10],
         simple: vec![],
         headers: vec![],
         debugs: vec![],
@@ -238,6 +244,14 @@ fn flatten(raw: &[String], eol: &str, trailing: bool) -> Flat {
                 M_CEND => {
                     let k = cs.next().unwrap().to_digit(10).unwrap() as usize;
                     f.cends[k] = Some(i);
+                }
+                M_NAT => {
+                    let k = cs.next().unwrap().to_digit(10).unwrap() as usize;
+                    f.nats[k] = Some(i);
+                }
+                M_ADP => {
+                    let k = cs.next().unwrap().to_digit(10).unwrap() as usize;
+                    f.adps[k] = Some(i);
                 }
                 M_SIMPLE => f.simple.push(i),
                 M_HEADER => f.headers.push(i),
@@ -757,12 +771,24 @@ impl G {
     }
 }
 
+/// one level of the call chain: the script call at `line` (call expression ends on `end`);
+/// `nat`: that call sits in a callback run by a core-library call on line `nat`; `adp`: the callback
+/// belongs to a lazy iterator adaptor created on line `adp` (and `nat` is the consumer's line)
+#[derive(Clone, Debug, PartialEq)]
+struct CallSite {
+    line: usize,
+    end: usize,
+    in_try: bool,
+    nat: Option<usize>,
+    adp: Option<usize>,
+}
+
 #[derive(Clone, Debug)]
 struct Planted {
     src: String,
     fault_line: usize,
     /// call sites, outermost first: (line, end line, in_try)
-    calls: Vec<(usize, usize, bool)>,
+    calls: Vec<CallSite>,
     fault_in_try: bool,
     stats: Vec<String>,
     flat_simple: Vec<usize>,
@@ -810,7 +836,62 @@ fn gen_planted(rng: &mut Rng, allow_try: bool) -> Planted {
         };
         g.stat(expr.kind.clone());
         let mut key = pre;
-        key.extend(g.embed(&expr, plain_only));
+        let native = level >= 1 && try_level.is_none() && g.rng.chance(1, 6);
+        if native {
+            // the call is made from a callback run by a core-library function
+            let was = g.in_fn;
+            g.in_fn = true;
+            let mut body = g.embed(&expr, false);
+            g.in_fn = was;
+            if g.rng.chance(1, 4) {
+                body = g.wrap(body);
+            }
+            let body: Vec<String> = body.into_iter().map(|l| l.replace(M_STMT, "").replace(M_SIMPLE, "").replace(M_HEADER, "")).collect();
+            let v = g.v();
+            let nat = format!("{M_NAT}{level}");
+            let adp = format!("{M_ADP}{level}");
+            let form = g.rng.below(6);
+            g.stat(format!("native={form}"));
+            let eager = *g.rng.pick(&[".fold 0, |p, q|", ".any |p|", ".all |p|", ".find |p|", ".position |p|"]);
+            let lazy = *g.rng.pick(&[".each |p|", ".keep |p|", ".each |p|"]);
+            let consumer = *g.rng.pick(&[".to_list()", ".to_tuple()", ".count()", ".last()", ".consume()", ".next()"]);
+            match form {
+                0 => {
+                    key.push(format!("{s}{v} = (1, 2)"));
+                    key.push(format!("  {nat}{eager}"));
+                    key.extend(indent(body, 4));
+                }
+                1 => {
+                    key.push(format!("{s}{v} = {nat}(1, 2){eager}"));
+                    key.extend(indent(body, 2));
+                }
+                2 => {
+                    key.push(format!("{s}{v} = {nat}iterator.fold (1, 2), 0, |p, q|"));
+                    key.extend(indent(body, 2));
+                }
+                3 => {
+                    key.push(format!("{s}{v} = [1, 2]"));
+                    key.push(format!("  {adp}{lazy}"));
+                    key.extend(indent(body, 4));
+                    key.push(format!("  {nat}{consumer}"));
+                }
+                _ => {
+                    let it = format!("it{}", g.uid());
+                    key.push(format!("{s}{it} = (1, 2)"));
+                    key.push(format!("  {adp}{lazy}"));
+                    key.extend(indent(body, 4));
+                    key.extend(g.fillers(0, 2, 1));
+                    if form == 4 {
+                        key.push(format!("{s}{v} = {nat}{it}{consumer}"));
+                    } else {
+                        key.push(format!("{s}{v} = {it}"));
+                        key.push(format!("  {nat}{consumer}"));
+                    }
+                }
+            }
+        } else {
+            key.extend(g.embed(&expr, plain_only));
+        }
         let single_stmt_key = key.len() == 1;
         let nwrap = g.rng.weighted(&[5, 3, 1]);
         g.stat(format!("nwrap={nwrap}"));
@@ -884,7 +965,13 @@ fn gen_planted(rng: &mut Rng, allow_try: bool) -> Planted {
     let f = flatten(&raw, eol, trailing);
     let mut calls = vec![];
     for level in (1..=depth).rev() {
-        calls.push((f.calls[level].expect("call marker"), f.cends[level].expect("cend marker"), try_level == Some(level)));
+        calls.push(CallSite {
+            line: f.calls[level].expect("call marker"),
+            end: f.cends[level].expect("cend marker"),
+            in_try: try_level == Some(level),
+            nat: f.nats[level],
+            adp: f.adps[level],
+        });
     }
     Planted {
         src: f.src.clone(),
@@ -1085,30 +1172,68 @@ impl Ctx {
         }
     }
 
-    /// (D) every instruction of a compiled chunk has a span inside the text
+    /// (D) structure of the real source map, the observable consequences of `instr_span` /
+    /// `span_stack_balanced`: every instruction of a compiled chunk has a span, inside the text, that
+    /// is the span of an AST node; an instruction inside the bytecode of a function literal has a span
+    /// inside that function's span, and an instruction outside of it never has a span inside
+    /// the function's body (a span left on the stack by the function's body would show there)
     fn check_chunk_spans(&mut self, src: &str, chunk: &Ptr<Chunk>) {
+        let Ok(ast) = koto_parser::Parser::parse(src) else { return };
+        let node_spans: std::collections::BTreeSet<Span> = ast.nodes().iter().map(|n| *ast.span(n.span)).collect();
+        // function literal span -> span of its body (default values of parameters are evaluated by
+        // the enclosing code after the function's own code, so only the body is exclusive)
+        let bodies: std::collections::BTreeMap<Span, Span> = ast
+            .nodes()
+            .iter()
+            .filter_map(|n| match &n.node {
+                koto_parser::Node::Function(f) => Some((*ast.span(n.span), *ast.span(ast.node(f.body).span))),
+                _ => None,
+            })
+            .collect();
         let mut reader = InstructionReader::new(chunk.clone());
-        let mut n = 0u64;
+        let mut instrs: Vec<(u32, Span)> = vec![];
+        let mut funcs: Vec<(Span, usize, usize)> = vec![];
         loop {
             let ip = reader.ip as u32;
-            if reader.next().is_none() {
-                break;
-            }
-            n += 1;
+            let Some(instr) = reader.next() else { break };
             match chunk.debug_info.get_source_span(ip) {
                 None => {
-                    self.d("C12:instruction-without-span", json!({"replay_kind": "planted", "program": src, "ip": ip}));
+                    self.d("C12:instruction-without-span", json!({"replay_kind": "chunk", "program": src, "ip": ip}));
                     return;
                 }
                 Some(sp) => {
                     if let Err(why) = span_inside(src, &sp) {
-                        self.d("C12:instruction-span-outside-text", json!({"replay_kind": "planted", "program": src, "ip": ip, "span": span_s(&sp), "why": why}));
+                        self.d("C12:instruction-span-outside-text", json!({"replay_kind": "chunk", "program": src, "ip": ip, "span": span_s(&sp), "why": why}));
                         return;
                     }
+                    if !node_spans.contains(&sp) {
+                        self.d("C12:instruction-span-not-a-node", json!({"replay_kind": "chunk", "program": src, "ip": ip, "span": span_s(&sp), "instruction": format!("{:?}", instr)}));
+                        return;
+                    }
+                    if let koto_bytecode::Instruction::Function { size, .. } = instr {
+                        funcs.push((sp, reader.ip, reader.ip + size as usize));
+                    }
+                    instrs.push((ip, sp));
                 }
             }
         }
-        self.rep.bump_by("instructions_checked", n);
+        let within = |a: &Span, b: &Span| (b.start.line, b.start.column) <= (a.start.line, a.start.column) && (a.end.line, a.end.column) <= (b.end.line, b.end.column);
+        for (fsp, lo, hi) in &funcs {
+            for (ip, sp) in &instrs {
+                let inside_code = (*ip as usize) >= *lo && (*ip as usize) < *hi;
+                let bad = if inside_code { !within(sp, fsp) } else { bodies.get(fsp).is_some_and(|b| within(sp, b)) };
+                if bad {
+                    self.d(
+                        "C12:function-range-span",
+                        json!({"replay_kind": "chunk", "program": src, "ip": ip, "span": span_s(sp), "function_span": span_s(fsp), "function_code": [lo, hi],
+                               "what": if inside_code { "an instruction of the function's code has a span outside the function literal" } else { "an instruction outside the function's code has a span inside the function's body" }}),
+                    );
+                    return;
+                }
+            }
+        }
+        self.rep.bump_by("instructions_checked", instrs.len() as u64);
+        self.rep.bump_by("function_literals_checked", funcs.len() as u64);
     }
 
     // ---- (K3 + D) planted faults ----
@@ -1116,18 +1241,15 @@ impl Ctx {
     fn planted_case(&mut self, p: &Planted, quiet: bool) -> Option<String> {
         let src = &p.src;
         // model prediction from the abstract description
-        let mut req = format!("trace {} {}", p.fault_line, p.fault_in_try as u8);
-        for (l, _, t) in &p.calls {
-            req.push_str(&format!(" {}:0:{}", l, *t as u8));
-        }
+        let req = planted_request(p);
         let model = self.drv.ask(&req);
         let real = run_real(src);
-        let nontrivial = p.calls.len() >= 1 || src.lines().count() >= 8;
+        let nontrivial = !p.calls.is_empty() || src.lines().count() >= 8;
         self.rep.case(&format!("{req} {}", kvh::fnv1a(src.as_bytes())), nontrivial);
         let mut fail: Option<(String, Value)> = None;
         let detail = |what: &str, extra: Value| -> Value {
             json!({"replay_kind": "planted", "program": src, "fault_line": p.fault_line,
-                   "calls": p.calls.iter().map(|(a, b, c)| json!([a, b, c])).collect::<Vec<_>>(),
+                   "calls": p.calls.iter().map(|c| json!([c.line, c.end, c.in_try, c.nat, c.adp])).collect::<Vec<_>>(),
                    "fault_in_try": p.fault_in_try, "model": model, "what": what, "observed": extra})
         };
         let real_canon: String;
@@ -1163,8 +1285,14 @@ impl Ctx {
                 } else {
                     // span extents
                     let mut expect: Vec<(usize, usize)> = vec![(p.fault_line, p.fault_line)];
-                    for (l, e, _) in p.calls.iter().rev() {
-                        expect.push((*l, *e));
+                    for c in p.calls.iter().rev() {
+                        expect.push((c.line, c.end));
+                        if let Some(a) = c.adp {
+                            expect.push((a, c.end.max(a)));
+                        }
+                        if let Some(n) = c.nat {
+                            expect.push((n, c.end.max(n)));
+                        }
                     }
                     for (i, (f, (lo, hi))) in frames.iter().zip(expect.iter()).enumerate() {
                         let sp = f.unwrap();
@@ -1831,17 +1959,51 @@ impl Ctx {
     }
 }
 
-fn parse_calls(v: &Value) -> Vec<(usize, usize, bool)> {
+fn parse_calls(v: &Value) -> Vec<CallSite> {
     v.as_array()
         .map(|a| {
             a.iter()
-                .map(|c| (c[0].as_u64().unwrap() as usize, c[1].as_u64().unwrap() as usize, c[2].as_bool().unwrap_or(false)))
+                .map(|c| CallSite {
+                    line: c[0].as_u64().unwrap() as usize,
+                    end: c[1].as_u64().unwrap() as usize,
+                    in_try: c[2].as_bool().unwrap_or(false),
+                    nat: c.get(3).and_then(|x| x.as_u64()).map(|x| x as usize),
+                    adp: c.get(4).and_then(|x| x.as_u64()).map(|x| x as usize),
+                })
                 .collect()
         })
         .unwrap_or_default()
 }
 
-fn planted_from(src: &str, fault_line: usize, calls: Vec<(usize, usize, bool)>, fault_in_try: bool) -> Planted {
+/// the model request for a planted-fault program: `trace …` (one interpreter entry, Trace.predict)
+/// or, when callbacks run by core-library functions are involved, `segs …` (Trace.predictSegs)
+fn planted_request(p: &Planted) -> String {
+    if p.calls.iter().all(|c| c.nat.is_none()) {
+        let mut req = format!("trace {} {}", p.fault_line, p.fault_in_try as u8);
+        for c in &p.calls {
+            req.push_str(&format!(" {}:0:{}", c.line, c.in_try as u8));
+        }
+        return req;
+    }
+    // entries innermost first; each: failIp failInTry adaptorIp|- calls (outermost first)
+    let mut segs: Vec<String> = vec![];
+    let mut fail = (p.fault_line, p.fault_in_try as u8, None::<usize>);
+    let mut cur: Vec<String> = vec![]; // innermost first while collecting
+    for c in p.calls.iter().rev() {
+        cur.push(format!("{}:0:{}", c.line, c.in_try as u8));
+        if let Some(n) = c.nat {
+            cur.reverse();
+            segs.push(format!("{} {} {} {}", fail.0, fail.1, fail.2.map(|a| a.to_string()).unwrap_or("-".into()), cur.join(" ")));
+            cur = vec![];
+            fail = (n, 0, c.adp);
+        }
+    }
+    cur.reverse();
+    segs.push(format!("{} {} {} {}", fail.0, fail.1, fail.2.map(|a| a.to_string()).unwrap_or("-".into()), cur.join(" ")));
+    format!("segs {}", segs.join(" / "))
+}
+
+fn planted_from(src: &str, fault_line: usize, calls: Vec<CallSite>, fault_in_try: bool) -> Planted {
     Planted {
         src: src.to_string(),
         fault_line,
@@ -1866,6 +2028,13 @@ fn run_recorded(cx: &mut Ctx, d: &Value, quiet: bool) -> Option<String> {
         "planted" => {
             let p = planted_from(src, d["fault_line"].as_u64().unwrap_or(0) as usize, parse_calls(&d["calls"]), d["fault_in_try"].as_bool().unwrap_or(false));
             cx.planted_case(&p, quiet)
+        }
+        "chunk" => {
+            let before = cx.d_fail;
+            if let Ok(chunk) = compile(src) {
+                cx.check_chunk_spans(src, &chunk);
+            }
+            if cx.d_fail > before { Some("C12:chunk-structure".into()) } else { None }
         }
         "module" => {
             let frames: Vec<(usize, usize)> = d["frames"].as_array().map(|a| a.iter().map(|f| (f[0].as_u64().unwrap() as usize, f[1].as_u64().unwrap() as usize)).collect()).unwrap_or_default();
